@@ -17,7 +17,8 @@ Definition C17_full_statement : Prop :=
     (* exactly the documented components, in order, named from the entity name *)
     map skel cs = spec_skeleton e
     (* every internal reference resolves inside the expansion or the implicit imports *)
-    /\ closed cs = true /\ (fields_ok e = true -> compile e = Ok cs)
+    /\ closed cs = true
+    /\ (fields_ok e = true -> query_params_ok e = true -> command_params_ok e = true -> compile e = Ok cs)
     (* the same entity annotation on every part that carries one *)
     /\ Forall (eq (snake_name e)) (psm_entities cs)
     /\ Forall (eq (snake_name e)) (service_entities cs)
@@ -32,7 +33,7 @@ Proof.
   repeat split; try assumption.
   - apply expand_skeleton.
   - apply expand_closed.
-  - intros Hok. rewrite (compile_expand e Hok). exact H.
+  - intros Hok Hq Hc. rewrite (compile_expand e Hok Hq Hc). exact H.
   - exists fl. apply main_file_messages.
 Qed.
 Print Assumptions C17_full.
@@ -50,15 +51,29 @@ Theorem C17_closed : forall e fl, closed (expand_with e fl) = true.
 Proof. exact expand_closed. Qed.
 Print Assumptions C17_closed.
 
-(* fields_ok: no user-declared field is both optional and required/primary (buildProperty) *)
-Theorem C17_compile_is_expand : forall e, fields_ok e = true -> compile e = expand e.
+(* fields_ok: no user-declared field is both optional and required/primary (buildProperty);
+   *_params_ok: every ":name" part of a method path is a request field (visitServiceMethodNode) *)
+Theorem C17_compile_is_expand : forall e,
+  fields_ok e = true -> query_params_ok e = true -> command_params_ok e = true -> compile e = expand e.
 Proof. exact compile_expand. Qed.
 Print Assumptions C17_compile_is_expand.
 
 Theorem C17_compile_errors : forall e cs, expand e = Ok cs ->
-  compile e = if fields_ok e then Ok cs else Err "cannot be both required and optional".
+  compile e = if fields_ok e then
+                if query_params_ok e && command_params_ok e then Ok cs
+                else Err "missing field in request"
+              else Err "cannot be both required and optional".
 Proof. exact compile_errors. Qed.
 Print Assumptions C17_compile_errors.
+
+(* the generated Get/List/Events methods never miss a path field: their path parameters are
+   request properties (keys without '/', a base path without ":name" parts) *)
+Theorem C17_query_params_ok : forall e,
+  path_params (query_base e) = [] ->
+  Forall (fun k => no_slash (uf_name (k_def k)) = true) (e_keys e) ->
+  query_params_ok e = true.
+Proof. exact query_params_always_ok. Qed.
+Print Assumptions C17_query_params_ok.
 
 Theorem C17_expand_total : forall e, is_panic (expand e) = false /\ expand e <> OutOfFuel.
 Proof. exact expand_total. Qed.
@@ -247,7 +262,8 @@ Example C17_example :
   /\ status_values (status_prefix C17_sample) (e_status C17_sample)
      = [(bs "FOO_S_STATUS_UNSPECIFIED", 0); (bs "FOO_S_STATUS_ACTIVE", 1); (bs "FOO_S_STATUS_INACTIVE", 2)]
   /\ Forall (fun k => no_slash (uf_name (k_def k)) = true) (e_keys C17_sample)
-  /\ upper_word (e_name C17_sample) = true /\ fields_ok C17_sample = true.
+  /\ upper_word (e_name C17_sample) = true /\ fields_ok C17_sample = true
+  /\ path_params (query_base C17_sample) = [] /\ command_params_ok C17_sample = true.
 Proof.
   split; [eexists; split; [vm_compute; reflexivity|reflexivity]|].
   repeat split; try (vm_compute; reflexivity). repeat constructor.
